@@ -180,7 +180,7 @@ func (s *recCluster) Pins(ctx context.Context, in struct{}, out *[]*api.Pin) err
 	return err
 }
 func (s *recCluster) PinGet(ctx context.Context, in cid.Cid, out *api.Pin) error {
-	err := s.r.rec("Cluster.PinGet", "c", cidTok(in))
+	err := s.r.rec("Cluster.PinGet", "c", cidArgTok(in))
 	p := api.PinCid(in)
 	p.Name = "got"
 	*out = *p
@@ -202,13 +202,13 @@ func (s *recCluster) StatusAllLocal(ctx context.Context, in api.TrackerStatus, o
 	return err
 }
 func (s *recCluster) Status(ctx context.Context, in cid.Cid, out *api.GlobalPinInfo) error {
-	err := s.r.rec("Cluster.Status", "c", cidTok(in))
+	err := s.r.rec("Cluster.Status", "c", cidArgTok(in))
 	*out = cannedGPI(in, api.TrackerStatusPinned)
 	s.r.setOut(*out)
 	return err
 }
 func (s *recCluster) StatusLocal(ctx context.Context, in cid.Cid, out *api.PinInfo) error {
-	err := s.r.rec("Cluster.StatusLocal", "c", cidTok(in))
+	err := s.r.rec("Cluster.StatusLocal", "c", cidArgTok(in))
 	*out = cannedPinInfo(in, api.TrackerStatusPinned)
 	s.r.setOut(*out)
 	return err
@@ -228,13 +228,13 @@ func (s *recCluster) RecoverAllLocal(ctx context.Context, in struct{}, out *[]*a
 	return err
 }
 func (s *recCluster) Recover(ctx context.Context, in cid.Cid, out *api.GlobalPinInfo) error {
-	err := s.r.rec("Cluster.Recover", "c", cidTok(in))
+	err := s.r.rec("Cluster.Recover", "c", cidArgTok(in))
 	*out = cannedGPI(in, api.TrackerStatusPinning)
 	s.r.setOut(*out)
 	return err
 }
 func (s *recCluster) RecoverLocal(ctx context.Context, in cid.Cid, out *api.PinInfo) error {
-	err := s.r.rec("Cluster.RecoverLocal", "c", cidTok(in))
+	err := s.r.rec("Cluster.RecoverLocal", "c", cidArgTok(in))
 	*out = cannedPinInfo(in, api.TrackerStatusPinning)
 	s.r.setOut(*out)
 	return err
